@@ -111,9 +111,17 @@ def struct_eq(eng, a, b, fr=None):
     from .models import items_of
     a = eng.deref(a, fr) if isinstance(a, Ref) else a
     b = eng.deref(b, fr) if isinstance(b, Ref) else b
+    from .engine import Cell as _Cell
+    while isinstance(a, _Cell):
+        a = a.v
+    while isinstance(b, _Cell):
+        b = b.v
     if isinstance(a, Int) and isinstance(b, Int):
         return a.e == b.e
     if isinstance(a, Bool) and isinstance(b, Bool):
+        return a.e == b.e
+    from .engine import Big as _Big
+    if isinstance(a, _Big) and isinstance(b, _Big):
         return a.e == b.e
     if isinstance(a, Enum) and isinstance(b, Enum):
         if a.variant != b.variant or len(a.fields) != len(b.fields):
@@ -131,10 +139,22 @@ def struct_eq(eng, a, b, fr=None):
     from .models_clvm import Tree, nodeptr_eq
     if isinstance(a, Tree) and isinstance(b, Tree):
         return nodeptr_eq(a, b)
+    from .models_hash import MapV, lookup
+    if isinstance(a, MapV) and isinstance(b, MapV):
+        if len(a.entries) != len(b.entries):
+            return z3.BoolVal(False)
+        parts = []
+        for k, c in a.entries:
+            i = lookup(eng, b, k, fr)
+            if i is None:
+                return z3.BoolVal(False)
+            if not a.is_set:
+                parts.append(struct_eq(eng, c.v, b.entries[i][1].v, fr))
+        return z3.And(*parts) if parts else z3.BoolVal(True)
     raise Unsupported('structural equality of %r / %r' % (a, b))
 
 
-@model(r'^<((?:std::option::)?Option<.*>|(?:std::result::)?Result<.*>|\(.*\)) as PartialEq>::(eq|ne)$')
+@model(r'^<((?:std::option::)?Option<.*>|(?:std::result::)?Result<.*>|\(.*\)|(?:std::collections::)?(?:HashMap|HashSet|BTreeMap|BTreeSet)<.*>) as PartialEq>::(eq|ne)$')
 def _std_struct_eq(eng, m, args, fr, dty):
     import z3
     from .engine import Bool
@@ -172,3 +192,112 @@ def _refcell_replace_with(eng, m, args, fr, dty):
     new = eng.call_closure(args[1], [Ref(c)])
     c.v = new
     return old
+
+
+@model(r'^<(Box|Rc|Vec|std::vec::Vec|std::rc::Rc|std::boxed::Box|String|std::string::String|HashMap|HashSet|BTreeMap|Option|std::vec::IntoIter|std::collections::\w+::\w+)<.*> as Drop>::drop$')
+def _std_drop(eng, m, args, fr, dty):
+    """dropping a std container releases memory only (element Drop impls of this crate: only the integer-mode guard,
+    which is never stored in a container)"""
+    from .engine import UNIT
+    return UNIT
+
+
+@model(r'^(?:std::mem::|core::mem::)?drop::<(.*)>$')
+def _mem_drop(eng, m, args, fr, dty):
+    from .engine import UNIT, Ref, Cell
+    ty = m.group(1)
+    fn = eng.resolve('<%s as Drop>::drop' % ty)
+    if fn is not None:
+        eng.run(eng.funcs[fn], [Ref(Cell(args[0]))])
+    return UNIT
+
+
+@model(r'^<(?:std::rc::)?(?:Rc|Box)<(.+)> as (PartialEq|PartialOrd|Ord)>::(\w+)$')
+def _rc_cmp(eng, m, args, fr, dty):
+    """Rc<T>/Box<T> compare by value: forward to T's implementation"""
+    from .engine import Ref, Cell
+    inner = []
+    for a in args:
+        v = eng.deref(a, fr)          # the Rc cell
+        inner.append(Ref(v) if isinstance(v, Cell) else a)
+    return eng.do_call('<%s as %s>::%s' % (m.group(1), m.group(2), m.group(3)), inner, fr, dty)
+
+
+@model(r'^<(?:std::ops::)?Range<(\w+)> as Iterator>::(map|filter|filter_map|enumerate|zip|skip|take|fold|collect|any|all|for_each|flat_map|find|position|step_by|chain)(::<.*>)?$')
+def _range_adapter(eng, m, args, fr, dty):
+    """a Range with concrete bounds used through an iterator adapter: materialise it"""
+    from .engine import concrete, Cell, mkint, Unsupported
+    from .models_vec import IterV
+    r = eng.deref(args[0], fr)
+    s, e = r.fields[0], r.fields[1]
+    sc = s.c if s.c is not None else concrete(s.e)
+    ec = e.c if e.c is not None else concrete(e.e)
+    if sc is None or ec is None:
+        raise Unsupported('iterator adapter on a Range with symbolic bounds')
+    it = IterV([Cell(mkint(i, m.group(1))) for i in range(sc, max(sc, ec))], owned=True)
+    name = '<std::vec::IntoIter<%s> as Iterator>::%s%s' % (m.group(1), m.group(2), m.group(3) or '')
+    return eng.do_call(name, [it] + list(args[1:]), fr, dty)
+
+
+@model(r'^core::num::<impl (u8|u16|u32|u64|u128|usize)>::(div_ceil|min|max|saturating_add|abs_diff)$|^(?:std|core)::cmp::(min|max)::<(u8|u16|u32|u64|u128|usize)>$|^<(u8|u16|u32|u64|u128|usize) as Ord>::(min|max)$')
+def _uint_misc(eng, m, args, fr, dty):
+    import z3
+    from .engine import Int
+    op = m.group(2) or m.group(3) or m.group(6)
+    a, b = args[0], args[1]
+    w = a.w
+    if op == 'div_ceil':
+        q = z3.UDiv(a.e, b.e)
+        r = z3.URem(a.e, b.e)
+        return Int(z3.If(r != 0, q + 1, q), w, False)
+    if op == 'min':
+        return Int(z3.If(z3.ULE(a.e, b.e), a.e, b.e), w, False)
+    if op == 'max':
+        return Int(z3.If(z3.UGE(a.e, b.e), a.e, b.e), w, False)
+    if op == 'saturating_add':
+        s = a.e + b.e
+        return Int(z3.If(z3.ULT(s, a.e), z3.BitVecVal((1 << w) - 1, w), s), w, False)
+    return Int(z3.If(z3.UGE(a.e, b.e), a.e - b.e, b.e - a.e), w, False)
+
+
+_PTR_IDS = {}
+
+
+def ptr_id(cell):
+    """a stable small integer per heap cell (pointer identity)"""
+    k = id(cell)
+    hit = _PTR_IDS.get(k)
+    if hit is None or hit[0] is not cell:
+        hit = (cell, 0x10000 + 16 * len(_PTR_IDS))
+        _PTR_IDS[k] = hit
+    return hit[1]
+
+
+@model(r'^(?:std::rc::)?Rc::<.*>::as_ptr$')
+def _rc_as_ptr(eng, m, args, fr, dty):
+    from .engine import mkint, Cell, Unsupported
+    v = eng.deref(args[0], fr)
+    if not isinstance(v, Cell):
+        raise Unsupported('Rc::as_ptr of %r' % (v,))
+    return mkint(ptr_id(v), 'usize')
+
+
+@model(r'^(?:std::rc::)?Rc::<.*>::ptr_eq$')
+def _rc_ptr_eq(eng, m, args, fr, dty):
+    from .engine import mkbool
+    a, b = eng.deref(args[0], fr), eng.deref(args[1], fr)
+    return mkbool(a is b)
+
+
+@model(r'^<(.+) as PartialEq(<.*>)?>::ne$')
+def _default_ne(eng, m, args, fr, dty):
+    """the provided method PartialEq::ne is !eq"""
+    import z3
+    from .engine import Bool
+    name = '<%s as PartialEq%s>::eq' % (m.group(1), m.group(2) or '')
+    if eng.resolve(name) is None:
+        return NotImplemented
+    r = eng.do_call(name, args, fr, dty)
+    if r.c is not None:
+        return Bool(None, not r.c)
+    return Bool(z3.Not(r.e))
